@@ -101,7 +101,8 @@ CHECKS = {
              "leak. (3) compute_raw / n3lo.interpolator memos are transparent, fact_matrices does not modify the operator memo (symbolic 2x2 "
              "operators) and ren_coeffs(nf) is independent of the nf values asked before. (4) ESF.get_result returns a private deep copy."
              " The scale-variation tensors a compute_local emits for nf from a manager that has served other nf before equal those from a fresh manager."
-             " A point listed twice keeps both slots; a from_dict-built couplings object answers independently of earlier requests; the user's scale-variation switches on the shared manager are not state.",
+             " A point listed twice keeps both slots; a from_dict-built couplings object answers independently of earlier requests; the user's scale-variation switches on the shared manager are not state."
+             " (5) Kernel lists of later points at the same symbolic Q2 built by the real Combiner on the run's shared configuration/couplings/target objects (symbolic Z, A, EW parameters, orders 0/2/3) are proved equal to those of a single-point run.",
         note=TRUST + "; bounded history (<= 2 earlier requests) instead of an arbitrary pre-state: the cache key has no other state, "
              "one earlier entry suffices for a collision; bit-for-bit float equality is outside (reals).",
         technique="symbolic execution of the real cache/ordering code with symbolic dict keys (z3 decisions) + path exploration",
@@ -115,7 +116,8 @@ CHECKS = {
              "confirms over all paths for an UNBOUNDED int NfFF that update_fns yields clamp(NfFF-3,0,3) zero thresholds followed "
              "by inf ones with the documented massless flags; unknown schemes raise ValueError. The beta coefficients emitted by the real "
              "apply_raw_diff_scale_variations equal beta0(nf), beta1(nf), beta0(nf)^2 for nf sequences on one shared manager."
-             " The coefficient functions of flavour-tagged observables (ZM-VFNS) and of the heavy/light/asymptotic channels (FFNS, FFN0) must be built for the same number of flavours; the CrossHair harness of update_fns also starts from cards with stale ZMc/ZMb/ZMt keys.",
+             " The coefficient functions of flavour-tagged observables (ZM-VFNS) and of the heavy/light/asymptotic channels (FFNS, FFN0) must be built for the same number of flavours; the CrossHair harness of update_fns also starts from cards with stale ZMc/ZMb/ZMt keys."
+             " Flavour census for EM/NC/CC and nf = 3..6: the quarks whose weight in the massless kernels is not identically zero are exactly 1..nf; with a symbolic CKM matrix every CC non-singlet weight is proved equal to 2 sum |V|^2 over the active partners.",
         note=TRUST + "; CrossHair 0.0.110 for update_fns; reals have no ulp: the boundary convention at equality is covered; "
              "unordered matching scales (np.digitize raises) are outside.",
         technique="symbolic execution of the real Runner/Combiner (z3 proxies, all paths) + CrossHair on update_fns",
@@ -199,7 +201,8 @@ CHECKS = {
              "entry (values and errors, every order key incl. scale-variation keys) equal to N (y+ F2 - yL FL +- y- xF3) with "
              "the documented N, y+-, yL for all ten kinds and four projectiles, plus the wiring (same flavour, same kinematics, "
              "TMC-aware request, F3 skipped only where its coefficient is zero); the same claim is repeated through the REAL "
-             "Runner.__init__ with symbolic MW, MP, GF in the theory card (the card's values must reach the normalisation).",
+             "Runner.__init__ with symbolic MW, MP, GF in the theory card (the card's values must reach the normalisation)."
+             " The probed point is preceded by another point of the same y bin and the results are requested twice (the formula holds on every evaluation).",
         note=TRUST + "; XSFPFCC normalisation oracle follows the standard derivation (4 pi), docs print 8 pi (recorded tension).",
         technique="symbolic execution of the real cross-section code (z3 proxies, forked paths) + z3 NRA equality",
         design="§4 C11",
